@@ -57,7 +57,7 @@ struct Bus {
 	int find(const ref::Bytes &addr) const;
 	// builds the tree: root interface + generated placement of the configured boards (present[i]
 	// tells whether board i is on the bus) + `unknown` nodes with unique ids not in the config
-	void build_tree(DP &dp, const cfg::Config &c, const std::vector<bool> &present, int unknown, int max_depth = 3);
+	void build_tree(DP &dp, const cfg::Config &c, const std::vector<bool> &present, int unknown, int max_depth = 3, bool deep = false);
 	std::string describe() const;
 	// injects a well-formed uplink message "from" node idx with the node's next sequence number
 	void send_from(int idx, uint8_t type, const ref::Bytes &data, uint64_t extra_delay = 0);
